@@ -17,6 +17,9 @@ def run_property(prop, tier, root=None, write=True, quiet=False):
     t0 = time.time()
     mod = importlib.import_module("gmsa.props.%s" % prop.lower())
     repo = Repo(root)
+    from .props import frames, exmap
+    frames._cache.clear()
+    exmap._DEFS.clear()
     ctx = Ctx(prop, tier, repo)
     mod.run(ctx)
     extra = None
